@@ -148,3 +148,17 @@ def run(ctx):
         if r.cls != "ok" or ref is None or r.stdout.decode().strip() != "0x%064x" % ref:
             ctx.violation("cli-export", dict(op="export --hd-path", path=text_of(c)), ref and "0x%064x" % ref, str(r))
     ctx.exhaustive["every hardened/normal pattern of depth 1..4"] = True
+    # the --account-index route to the same derivation: i < 2^31 gives the key of m/44'/60'/0'/0/i, anything else is an error (no key)
+    idx = [0, 1, 2 ** 31 - 1, 2 ** 31, 2 ** 31 + 1, 3 * 2 ** 30, 2 ** 32 - 1, 2 ** 32, 2 ** 32 + 5, 2 ** 64 - 1, 2 ** 64]
+    res = ctx.cli([dict(args=["export", "--mnemonic", phrase, "--account-index", str(i)]) for i in idx] +
+                  [dict(args=["export", "--mnemonic", phrase], env=dict(ACCOUNT_INDEX=str(i))) for i in idx])
+    for i, r in zip(idx + idx, res):
+        ctx.count("cli/account-index-route")
+        ctx.distinct(("idxroute", i))
+        if i < B31:
+            key = pyref.bip32_derive(seed, [0x8000002C, 0x8000003C, 0x80000000, 0, i])
+            if r.cls != "ok" or r.stdout.decode().strip() != "0x%064x" % key:
+                ctx.violation("account-index-route", dict(op="hdwallet export --account-index", index=i), "0x%064x" % key, str(r)[:200])
+        elif r.cls != "error" or r.stdout != b"":
+            ctx.violation("never-other-key(account index)", dict(op="hdwallet export --account-index", index=i), "an error: no BIP-32 child has this index in a normal position", str(r)[:200])
+
